@@ -326,7 +326,7 @@ def main(tier, replay=None):
     probes = all_probes()
     traces = []
     state = {'n': 0, 'part': 0, 'samples': []}
-    CH = 3000
+    CH = 3000 if quick else 1000
 
     def emit(tr_fn):
         """replay one history and validate in chunks: nothing but the current chunk is kept in memory"""
@@ -347,8 +347,8 @@ def main(tier, replay=None):
     midset = [(p, a) for p in ('p1', 'p2') for a in (F.var('va'), F.var('vb'), F.call('FA', F.num('2')),
                                                      F.call('SUM', F.num('2'), F.num('3')))]
     for c in hists:
-        pr = probes if not quick else rng.sample(probes, 10)
-        mid = [midset if not quick else rng.sample(midset, 3) for _ in c['hist']]
+        pr = rng.sample(probes, 10 if quick else 40)
+        mid = [rng.sample(midset, 3 if quick else 5) for _ in c['hist']]
         emit(lambda tid: replay_case(lib, tid, {'hist': c['hist'], 'probes': pr, 'mid': mid}))
     for i in range(1500 if quick else 30000):
         rc = random_case(rng, i)
